@@ -1,4 +1,4 @@
-\* the REPAIRED implementation shape (keyword test guarded by the record number, symbol capped at two columns, pinned reader loop): expected to PASS
+\* the REPAIRED implementation shape (keyword test guarded by the record number, a slot without a blank read as symbol(2)+count(3), pinned reader loop): expected to PASS
 SPECIFICATION Spec
 CONSTANTS
   Lists <- MCLists
